@@ -23,6 +23,32 @@ pub fn send_body_flow(len: Option<u64>) -> Flow<(), SendBody> {
     }
 }
 
+/// A body-less method converted with send_body_despite_method(), no framing header: chunked by default.
+pub fn send_body_flow_despite(method: &str) -> Flow<(), SendBody> {
+    let cfg = ReqCfg::new(method, "1.1", "http://a.test/p").despite(true);
+    let f = cfg.build_prepare().expect("prepare");
+    let mut f = f.proceed();
+    let mut buf = vec![0u8; 1024];
+    f.write(&mut buf).expect("head");
+    match AnyFlow::SendRequest(f).proceed() {
+        Ok(Some(AnyFlow::SendBody(f))) => f,
+        _ => panic!("harness: expected SendBody"),
+    }
+}
+
+/// Sized body on a body-less method converted with send_body_despite_method().
+pub fn send_body_flow_despite_len(method: &str, n: u64) -> Flow<(), SendBody> {
+    let cfg = ReqCfg::new(method, "1.1", "http://a.test/p").orig("content-length", &n.to_string()).despite(true);
+    let f = cfg.build_prepare().expect("prepare");
+    let mut f = f.proceed();
+    let mut buf = vec![0u8; 1024];
+    f.write(&mut buf).expect("head");
+    match AnyFlow::SendRequest(f).proceed() {
+        Ok(Some(AnyFlow::SendBody(f))) => f,
+        _ => panic!("harness: expected SendBody"),
+    }
+}
+
 /// The single-call API in its body phase (head already written).
 pub fn send_body_call(len: Option<u64>) -> Call<WithBody, ()> {
     let mut cfg = ReqCfg::new("POST", "1.1", "http://a.test/p");
